@@ -15,7 +15,7 @@ from simkit import twin
 from vizier import pyvizier as vz
 
 DESIGNERS = ['random', 'quasi', 'sgrid', 'eagle', 'nsga2', 'cmaes']
-PERTURB = ['clock', 'py_random', 'np_random', 'jax_key', 'foreign_study', 'pythia_servicer']
+PERTURB = ['clock', 'py_random', 'np_random', 'jax_key', 'foreign_study', 'pythia_servicer', 'runner_reuse']
 
 
 def _foreign(step):
@@ -85,12 +85,21 @@ def execute(plan, perturb, seed=None):
       def factory(problem, seed=None, name=name):
         return twin.make(name, problem, seed, small=True)
 
-      state = benchmark_state.DesignerBenchmarkStateFactory(experimenter=exp, designer_factory=factory)(seed=seed)
+      state_factory = benchmark_state.DesignerBenchmarkStateFactory(experimenter=exp, designer_factory=factory)
+      state = state_factory(seed=seed)
       if plan['protocol'] == 'generate_and_evaluate':
         subs = [benchmark_runner.GenerateAndEvaluate(plan['batch'])]
+      elif plan['protocol'] == 'fill_then_partial':
+        subs = [benchmark_runner.FillActiveTrials(plan['batch'] + plan['partial']),
+                benchmark_runner.EvaluateActiveTrials(plan['partial'])]
       else:
         subs = [benchmark_runner.GenerateSuggestions(plan['batch']),
                 benchmark_runner.EvaluateActiveTrials(plan['partial'])]
+      if perturb and 'runner_reuse' in kinds:
+        # "a runner can be applied to multiple benchmarks": the very same protocol objects first drove
+        # another seeded study in this process
+        other = state_factory(seed=seed + 77)
+        benchmark_runner.BenchmarkRunner(benchmark_subroutines=subs, num_repeats=3).run(other)
       for rep in range(plan['repeats']):
         if perturb:
           _perturb(kinds, rep + 1, clk)
@@ -118,10 +127,10 @@ class C14(runner.Check):
           'execution X runs undisturbed; execution Y of the same seed runs with the perturbations injected '
           'before and between steps (simulated-clock epoch / jumps / resolution, re-seeded and advanced global '
           'python and numpy RNGs, jax keys, other studies of other algorithms run in between, a PythiaServicer '
-          'instantiation; a sample also in a fresh interpreter with another PYTHONHASHSEED); X and Y must '
+          'instantiation, the benchmark protocol objects having driven another study before; a sample also in a fresh interpreter with another PYTHONHASHSEED); X and Y must '
           'produce identical suggestions / trial sequences and a different seed must change them; designers: '
           'random, quasi-random, shuffled grid, eagle, NSGA-II, CMA-ES; protocols: GenerateAndEvaluate and '
-          'GenerateSuggestions + partial EvaluateActiveTrials on BBOB functions; distinct = hash of (designer, '
+          'GenerateSuggestions / FillActiveTrials + partial EvaluateActiveTrials on BBOB functions; distinct = hash of (designer, '
           'seed, perturbation kinds, history shape); non-trivial iff >=2 perturbation kinds fired')
   assumptions = [
       'GP bandit and GP-UCB-PE are NOT covered: equinox cannot be imported under the installed jax, so the claim is limited to the other six designers and the benchmark runner',
@@ -130,7 +139,7 @@ class C14(runner.Check):
   runs = {'quick': 1200, 'thorough': 12000}
   budget_s = {'quick': 110, 'thorough': 1500}
   chunk = 10
-  probes = ['perturb.clock', 'perturb.py_random', 'perturb.np_random', 'perturb.foreign_study',
+  probes = ['perturb.clock', 'perturb.py_random', 'perturb.np_random', 'perturb.foreign_study', 'perturb.runner_reuse',
             'perturb.fresh_process', 'probe.seed-changes-stream', 'probe.benchmark-protocol',
             'probe.partial-evaluation']
 
@@ -138,7 +147,7 @@ class C14(runner.Check):
     name = rng.choice(['random', 'quasi', 'sgrid', 'eagle', 'eagle', 'nsga2', 'nsga2'])
     if rng.random() < (0.03 if tier == 'quick' else 0.06):
       name = 'cmaes'
-    kinds = sorted(rng.sample(PERTURB, rng.choice([2, 3, 4, 6])))
+    kinds = sorted(rng.sample(PERTURB, rng.choice([2, 3, 4, 7])))
     # edge seeds on purpose: 0 is falsy, 2**31-1 / 2**32-1 are range limits
     seed = rng.randrange(1, 10**6) if rng.random() < 0.8 else rng.choice([0, 0, 0, 1, 2**31 - 1])
     # A fresh interpreter with another PYTHONHASHSEED is the only way to perturb set /
@@ -149,7 +158,7 @@ class C14(runner.Check):
             'hashseed': rng.choice([1, 9, 4242, 123456])}
     if rng.random() < 0.3 and name != 'sgrid':
       plan.update(kind='benchmark', dim=rng.choice([2, 3]), function=rng.choice(['Sphere', 'BuecheRastrigin', 'DifferentPowers', 'StepEllipsoidal', 'Schwefel']),
-                  protocol=rng.choice(['generate_and_evaluate', 'suggest_then_partial']),
+                  protocol=rng.choice(['generate_and_evaluate', 'suggest_then_partial', 'fill_then_partial']),
                   batch=rng.choice([1, 2, 3, 5]), partial=rng.choice([1, 2]), repeats=rng.choice([3, 5, 8]))
       if name == 'cmaes':
         plan['repeats'] = 3
